@@ -55,6 +55,8 @@ ScenKey ==
          THEN <<"pct", out.val, out.status, { k.name : k \in consts }, { cfg[i].val : i \in 1..Len(cfg) }>>
          ELSE IF out.op = "DefineConstant"
          THEN <<"define", out.name, out.status, { k.name : k \in consts }, interactive>>
+         ELSE IF out.op = "QueryConst"
+         THEN <<"query", out.name, out.status, out.val, { k.name : k \in consts }>>
          ELSE <<"none">>
     [] OTHER -> <<"none">>
 
